@@ -90,6 +90,8 @@ def check(spec, strict, case):
     root = witness.build(spec, ids)
     ix = index_map(root)
     nodes = witness.preorder(root)
+    for i_, n_ in enumerate(nodes[1:]):
+        n_.tail = f" tail{i_} "          # text after the element, as mixed content imported from XML carries
     before_fields = field_snap(nodes)
     store_before = set(Node.store)
     try:
